@@ -23,7 +23,12 @@ read) pair is recorded; then
     cells of the input block in those columns) — is an ancestor of the formula
     cell in dep_graph;
   * perturbing an input cell that is not an ancestor of a formula cell in
-    dep_graph never changes that cell's value."""
+    dep_graph never changes that cell's value.
+The workbooks also hold references to the formula cell's own coordinate on the
+other sheet (Sheet2!H3 = Sheet1!H3*2, =SUM(Sheet1!H3:H4), with ROW()/COLUMN()
+without argument nearby); a second stream (build_unbounded_workbook) puts a
+whole-column / whole-row reference next to the explicit range it stands for,
+either one compiled first."""
 import logging
 import re
 
@@ -46,6 +51,17 @@ ASSUMPTIONS = [
     "cell's declared precedents and needed_addresses as hypotheses (declared_needed); the oracle checks them on "
     "real workbooks (edge for every needed address)",
 ]
+
+@known_predicate('C04-bounded-range-built-twice')
+def _built_twice(case):
+    """=SUM(A1:A4) compiled before =SUM(A:A) (A:A stands for A1:A4): _make_cells builds the _CellRange A1:A4 a second
+    time for the unbounded reference and replaces it in cell_map; the dependant that named A1:A4 keeps its edge from
+    the replaced node only.  Matched: a missing edge explicit range -> written formula, where an unbounded reference
+    of the workbook stands for exactly that range and the replaced node of the same address still has the edge."""
+    args = case.get('args') or []
+    return (case.get('call') == 'edge' and len(args) == 2 and str(args[0]).startswith('=') and ':' in args[1]
+            and bool(case.get('stood_for_by')) and case.get('replaced_twin') is True)
+
 
 REF_CELLS = ['A1', 'B2', 'C3', '$A$1', 'b2', '$B2', 'C$3', 'Sheet2!C3', 'Sheet2!$C$3', 'AA10']
 REF_RANGES = ['A1:B2', '$A$1:C3', 'B1:C3', 'A2:C2', 'Sheet2!A1:B2', 'A1:A3', 'B2:B3', 'Sheet2!B1:C3']
@@ -249,15 +265,172 @@ def build_workbook(rng):
         wb[home][f'E{i}'] = f
         prev.append(addr if home == 'Sheet1' else addr)
     # CSE members
-    if rng.random() < 0.7:
+    cse = rng.random() < 0.7
+    if cse:
         col = rng.choice(COLS)
         s1['G1'] = ArrayFormula('G1:G2', f'={col}1:{col}2*2')
         forms['Sheet1!G1'] = forms['Sheet1!G2'] = f'{{={col}1:{col}2*2}}'
-    return wb, inputs, forms
+    # references to the cell (or a range) at the formula cell's OWN coordinate on the other sheet: Sheet2!H4 =
+    # Sheet1!H4*2, =SUM(Sheet1!H4:H5), with ROW()/COLUMN() without argument (the cell's reference to itself) nearby;
+    # the source is an input, a blank or a formula cell; a CSE block reading the block of the same coordinates
+    must = []
+    for r in rng.sample([1, 3, 5, 7], rng.choice([0, 1, 2, 2, 3])):      # odd rows: r + 1 is never another r
+        src, dst = rng.sample(['Sheet1', 'Sheet2'], 2)
+        c = rng.choice('HI')
+        xy, below, right = f'{c}{r}', f'{c}{r + 1}', f'{chr(ord(c) + 1)}{r}'
+        k = rng.randrange(4)
+        if k == 0:
+            pass                                                   # blank source
+        elif k == 1:
+            forms[f'{src}!{xy}'] = wb[src][xy] = rng.choice([f'={cell()}*3', '=ROW()*10', f'=SUM({rng_()})'])
+        else:
+            inputs[f'{src}!{xy}'] = wb[src][xy] = rng.randrange(1, 50)
+            must.append(f'{src}!{xy}')
+        if rng.random() < 0.5 and c == 'H':
+            inputs[f'{src}!{below}'] = wb[src][below] = rng.randrange(1, 50)
+            must.append(f'{src}!{below}')
+        d = rng.choice(['', '', '$'])
+        ref = f'{src}!{d}{c}{d}{r}'
+        forms[f'{dst}!{xy}'] = wb[dst][xy] = rng.choice([
+            f'={ref}*2', f'={ref}', f'={ref}+ROW()', f'=COLUMN()*100+{ref}', f'=ROW()&"/"&{ref}&"/"&COLUMN()',
+            f'=SUM({ref}:{below})', f'=SUM({ref}:{right})+ROW()', f'=COUNT({src}!{xy}:{below})+COLUMN()',
+            f'=IF({ref}>{rng.randrange(1, 50)},{cell()},ROW())', f'={ref}+{cell()}', f'={ref}-{dst}!{below}',
+            f'=INDEX({src}!{xy}:{below},1,1)', f'=MAX({src}!{xy}:{below},{src}!{right})'])
+        prev.append(f'{dst}!{xy}')
+        if rng.random() < 0.4:
+            home = rng.choice(['Sheet1', 'Sheet2'])
+            n += 1
+            forms[f'{home}!E{n}'] = wb[home][f'E{n}'] = f'={dst}!{xy}+{cell()}'
+    if cse and rng.random() < 0.4:
+        s2['G1'] = ArrayFormula('G1:G2', '=Sheet1!G1:G2+1')
+        forms['Sheet2!G1'] = forms['Sheet2!G2'] = '{=Sheet1!G1:G2+1}'
+    return wb, inputs, forms, must
+
+
+def build_unbounded_workbook(rng):
+    """Whole-column / whole-row references NEXT TO the explicit range they stand for.  One or two sheets; on the data
+    sheet a block of 2-3 columns x 2-5 rows (blank cells; now and then a formula cell inside a column, reading
+    earlier rows); 3-8 formula cells in columns E-F of either sheet, among them at least one with an unbounded
+    reference U (A:A, A:B, $B:$B, 2:2) and one with the explicit range X equal to U's part inside the used range of
+    the data sheet (A1:A{max_row}, A2:{max_column}2) — in separate cells, or both in one formula in either order.
+    Returns (workbook, inputs, forms, order): order, a random permutation of the formula cells, is the order in
+    which they are first evaluated, so X is compiled before U in about half of the workbooks."""
+    import openpyxl
+    from openpyxl.utils import get_column_letter
+    wb = openpyxl.Workbook()
+    wb.active.title = 'Sheet1'
+    sheets = ['Sheet1']
+    if rng.random() < 0.5:
+        wb.create_sheet('Sheet2')
+        sheets.append('Sheet2')
+    data = rng.choice(sheets)
+    ncol, m = rng.choice([2, 3]), rng.randrange(2, 6)
+    inputs, forms, written = {}, {}, set()
+    for r in range(1, m + 1):
+        for c in range(1, ncol + 1):
+            xy = f'{COLS[c - 1]}{r}'
+            corner = (r, c) in ((m, 1), (1, ncol))          # these two keep the used range m x ncol
+            if r > 1 and not corner and rng.random() < 0.15:
+                forms[f'{data}!{xy}'] = wb[data][xy] = rng.choice(
+                    [f'={COLS[c - 1]}{r - 1}*2', f'={COLS[rng.randrange(ncol)]}1+{r}', f'=SUM({COLS[c - 1]}1:{COLS[c - 1]}{r - 1})']
+                    if r > 2 else [f'={COLS[c - 1]}{r - 1}*2', f'={COLS[rng.randrange(ncol)]}1+{r}'])
+                written.add((r, c))
+                continue
+            v = rng.choice([rng.randrange(1, 50), rng.randrange(1, 50), rng.randrange(1, 200) / 4])
+            if not corner and rng.random() < 0.15:
+                v = None
+            else:
+                wb[data][xy] = v
+                written.add((r, c))
+            inputs[f'{data}!{xy}'] = v
+    rt = rng.randrange(1, m + 1)            # the row of the whole-row reference: no formula cell of the data sheet there
+    free = {sh: [(r, c) for c in (5, 6) for r in range(1, 8) if not (sh == data and r == rt)] for sh in sheets}
+    slots = []
+    for _ in range(rng.randrange(3, 9)):
+        sh = rng.choice(sheets)
+        r, c = free[sh].pop(rng.randrange(len(free[sh])))
+        slots.append((sh, f'{get_column_letter(c)}{r}'))
+        if sh == data:
+            written.add((r, c))
+    max_row, max_col = max(r for r, _ in written), max(c for _, c in written)
+
+    def q(home, ref):
+        return ref if home == data and rng.random() < 0.6 else f'{data}!{ref}'
+
+    def pair():
+        d = '$' if rng.random() < 0.2 else ''
+        if rng.random() < 0.3:
+            return f'{d}{rt}:{d}{rt}', f'{d}A{d}{rt}:{get_column_letter(max_col)}{rt}'
+        c1, c2 = sorted(rng.choice(range(ncol)) for _ in range(2)) if rng.random() < 0.35 else [rng.randrange(ncol)] * 2
+        return f'{d}{COLS[c1]}:{d}{COLS[c2]}', f'{d}{COLS[c1]}{d}1:{COLS[c2]}{max_row}'
+
+    def cell(home):
+        return q(home, rng.choice(COLS[:ncol]) + str(rng.randrange(1, m + 1)))
+
+    pairs = [pair() for _ in range(rng.choice([1, 1, 2]))]
+    kinds = ['X', 'U'] if rng.random() < 0.8 else [rng.choice(['XU', 'UX'])]
+    kinds = (kinds + [rng.choice(['X', 'U', 'XU', 'UX', 'o', 'o']) for _ in slots])[:len(slots)]
+    rng.shuffle(kinds)
+    prev = []
+    for (home, xy), kind in zip(slots, kinds):
+        u, x = rng.choice(pairs)
+        u, x = q(home, u), q(home, x)
+        agg = rng.choice(['SUM', 'SUM', 'MAX', 'COUNT', 'MIN'])
+        if kind == 'X':
+            f = rng.choice([f'={agg}({x})', f'={agg}({x})+{cell(home)}', f'=SUM({x},{cell(home)})', f'=INDEX({x},1,1)'])
+        elif kind == 'U':
+            f = rng.choice([f'={agg}({u})', f'={agg}({u})+{cell(home)}', f'=SUM({u},{cell(home)})', f'=COUNT({u})&"x"'])
+        elif kind == 'XU':
+            f = rng.choice([f'=SUM({x})+{agg}({u})', f'=SUM({x},{u})', f'=IF(SUM({x})>0,{agg}({u}),0)'])
+        elif kind == 'UX':
+            f = rng.choice([f'=SUM({u})-{agg}({x})', f'=COUNT({u},{x})', f'=MAX({u})&MIN({x})'])
+        elif prev and rng.random() < 0.5:
+            f = f'={rng.choice(prev)}+{cell(home)}'
+        else:
+            r1 = rng.randrange(1, m)
+            f = rng.choice([f'={cell(home)}+{cell(home)}*2', f'=SUM({q(home, f"A{r1}:A{m}")})',
+                            f'=SUM({q(home, f"A1:{COLS[ncol - 1]}{r1}")})'])
+        forms[f'{home}!{xy}'] = wb[home][xy] = f
+        prev.append(f'{home}!{xy}')
+    order = list(forms)
+    rng.shuffle(order)
+    return wb, inputs, forms, order
+
+
+UNB_COLS = re.compile(r'(.+)!\$?([A-Z]+):\$?([A-Z]+)')
+UNB_ROWS = re.compile(r'(.+)!\$?(\d+):\$?(\d+)')
+CELL_RE = re.compile(r'(.+)!([A-Z]+)(\d+)')
 
 
 def unbounded(formula):
-    return re.search(r'[A-C]:\$?[A-C]\b(?!\d)', formula) is not None
+    return re.search(r'(?<![A-Z0-9$:])\$?[A-Z]+:\$?[A-Z]+\b(?![\d(])|(?<![A-Z0-9$:.])\$?\d+:\$?\d+(?![\d.])',
+                     formula) is not None
+
+
+def col_index(letters):
+    n = 0
+    for ch in letters:
+        n = n * 26 + ord(ch) - 64
+    return n
+
+
+def unbounded_members(x, known):
+    """The cells among `known` (the written cells of the workbook: inputs, blank cells of the input block, formula
+    cells) that the whole-column / whole-row reference x stands for — an unbounded range is its part inside the
+    used range of the sheet, which contains every written cell of its columns / rows.  () for any other address."""
+    mc, mr = UNB_COLS.fullmatch(x), UNB_ROWS.fullmatch(x)
+    if not (mc or mr):
+        return ()
+    out = []
+    for a in known:
+        m = CELL_RE.fullmatch(a)
+        if not m:
+            continue
+        if mc and m.group(1) == mc.group(1) and col_index(mc.group(2)) <= col_index(m.group(2)) <= col_index(mc.group(3)):
+            out.append(a)
+        if mr and m.group(1) == mr.group(1) and int(mr.group(2)) <= int(m.group(3)) <= int(mr.group(3)):
+            out.append(a)
+    return out
 
 
 def cells_of(AddressRange, addr):
@@ -270,116 +443,136 @@ def cells_of(AddressRange, addr):
 def workbook_oracle(ctx):
     ensure_impl_on_path()
     logging.getLogger('pycel').setLevel(logging.CRITICAL)
+    rng = ctx.rng
+    for wbi in range(ctx.n(250, 2500)):
+        wb, inputs, forms, must = build_workbook(rng)
+        order = list(forms)
+        if wbi % 3 == 2:
+            rng.shuffle(order)          # the order in which the formula cells are compiled
+        judge_workbook(ctx, wbi, wb, inputs, forms, order, must)
+    # ---- whole-column / whole-row references next to the explicit range they stand for, either compiled first
+    for wbi in range(ctx.n(150, 1500)):
+        wb, inputs, forms, order = build_unbounded_workbook(rng)
+        judge_workbook(ctx, ('u', wbi), wb, inputs, forms, order, rng.sample(sorted(inputs), min(4, len(inputs))))
+
+
+def judge_workbook(ctx, wbi, wb, inputs, forms, order, must=()):
+    """The oracle clauses on one openpyxl workbook: inputs = {address: value or None (blank)} of the written input
+    cells, forms = {address: formula text}, order = the order in which the formula cells are first evaluated
+    (compiled), must = inputs that are perturbed besides the sampled ones."""
     import networkx as nx
     from pycel.excelutil import ERROR_CODES, AddressRange
     rng = ctx.rng
-    for wbi in range(ctx.n(250, 2500)):
-        wb, inputs, forms = build_workbook(rng)
-        # (reader, read) pairs: the reader is the formula cell being computed, or the range node / unbounded
-        # range reference being computed (its member reads)
-        comp, trace = traced_compiler(wb)
-        base = {}
+    known = sorted(set(inputs) | set(forms))
+    # (reader, read) pairs: the reader is the formula cell being computed, or the range node / unbounded
+    # range reference being computed (its member reads)
+    comp, trace = traced_compiler(wb)
+    base = {}
+    for a in order:
+        try:
+            base[a] = ('ok', comp.evaluate(a))
+        except Exception as exc:       # noqa: BLE001
+            base[a] = ('raise', type(exc).__name__)
+    # ---- 1. reads are declared
+    for dep, read in trace:
+        key = ('read', wbi, dep, read)
+        ctx.count(key, kind='read:range' if ':' in read else 'read:cell',
+                  sample=dict(formula_cell=dep, formula=forms.get(dep), read=read))
+        if dep is None or read in ERROR_CODES:
+            continue
+        dcell = comp.cell_map[dep]
+        needed = [p.address for p in dcell.needed_addresses]
+        case = dict(call='read', args=[forms.get(dep, dep), read], needed=needed)
+        if read in needed:
+            continue
+        rc = cells_of(AddressRange, read)
+        cover = [p for p in needed if set(rc) <= set(cells_of(AddressRange, p))]
+        if not cover:
+            ctx.violation(case, "evaluation read an address that is neither a declared precedent nor inside one",
+                          impl=read, expected=needed)
+            continue
+        ctx.histogram['read:computed-inside-declared'] = ctx.histogram.get('read:computed-inside-declared', 0) + 1
+        for m in rc:
+            okpath = any(m in comp.cell_map and p in comp.cell_map and
+                         (m == p or comp.dep_graph.has_edge(comp.cell_map[m], comp.cell_map[p])) and
+                         comp.dep_graph.has_edge(comp.cell_map[p], dcell) for p in cover)
+            if not okpath:
+                ctx.violation(case, f"cell {m} of a computed read has no path member -> declared range -> dependant "
+                                    "in dep_graph", impl=read, expected=cover)
+    # ---- 2. edges for declared precedents
+    for a in list(comp.cell_map):
+        c = comp.cell_map[a]
+        try:
+            needed = [p.address for p in c.needed_addresses]
+        except Exception:      # noqa: BLE001
+            continue
+        for p in needed:
+            ctx.count(('edge', wbi, p, a), kind='edge')
+            if p not in comp.cell_map or not comp.dep_graph.has_edge(comp.cell_map[p], c):
+                # what the known finding C04-bounded-range-built-twice is matched on: the unbounded references in
+                # cell_map that stand for p, and whether a node that is no longer cell_map[p] but has p's address
+                # still carries the edge to the dependant
+                stands = sorted(u for u, uc in comp.cell_map.items()
+                                if uc.address.is_unbounded_range and [x.address for x in uc.needed_addresses] == [p])
+                twin = [n for n in comp.dep_graph.predecessors(c)
+                        if n.address.address == p and n is not comp.cell_map.get(p)] if c in comp.dep_graph else []
+                ctx.violation(dict(call='edge', args=[forms.get(a, a), p], stood_for_by=stands, replaced_twin=bool(twin),
+                                   workbook=forms, order=list(order)),
+                              "declared precedent without precedent -> dependant edge in dep_graph", impl=a, expected=p)
+    # ---- 3. perturbing a non-ancestor never changes a value
+    anc = {}
+    for a in forms:
+        node = comp.cell_map[a]
+        anc[a] = {n.address.address for n in nx.ancestors(comp.dep_graph, node)}
+    # ---- 2b. every cell that the evaluation of a formula cell reads, directly or through the range nodes and
+    #          unbounded-range references it reads, is an ancestor of the formula cell
+    reads = {}
+    for dep, read in trace:
+        if read not in ERROR_CODES:
+            reads.setdefault(dep, set()).add(read)
+    for a in forms:
+        seen, todo = set(), [a]
+        while todo:
+            x = todo.pop()
+            nxt = set(reads.get(x, ()))
+            # an unbounded range stands for its part inside the used range, whose value it takes without a
+            # traced call: at least the written cells (input block incl. its blanks, formula cells) of its
+            # columns / rows are read
+            nxt |= set(unbounded_members(x, known))
+            for r in nxt:
+                if r not in seen:
+                    seen.add(r)
+                    todo.append(r)
+        for r in sorted(seen):
+            if ':' in r.split('!')[-1]:
+                continue        # range nodes are the path, the cells are the claim
+            ctx.count(('reach', wbi, a, r), kind='reach:' + ('blank-cell' if inputs.get(r, 0) is None else 'cell')
+                      + (':unbounded' if unbounded(forms[a]) else ''))
+            if r not in anc[a]:
+                ctx.violation(dict(call='reach', args=[forms[a], r], workbook=forms, blank=inputs.get(r, 0) is None),
+                              "a cell read while the formula is evaluated (through the range nodes it reads) is "
+                              "not an ancestor of the formula cell in dep_graph", impl=sorted(anc[a])[:40], expected=r)
+    for x in list(must) + rng.sample(sorted(inputs), min(len(inputs), ctx.n(6, 18))):
+        if x not in comp.cell_map:
+            continue        # never built: nothing declared it
+        old = inputs[x]
+        comp.set_value(x, (old or 0) + 1000.5)
         for a in forms:
+            if x in anc[a]:
+                continue
+            ctx.count(('perturb', wbi, x, a), kind='perturb')
             try:
-                base[a] = ('ok', comp.evaluate(a))
+                now = ('ok', comp.evaluate(a))
             except Exception as exc:       # noqa: BLE001
-                base[a] = ('raise', type(exc).__name__)
-        wcase = dict(call='workbook', args=[forms, inputs])
-        # ---- 1. reads are declared
-        for dep, read in trace:
-            key = ('read', wbi, dep, read)
-            ctx.count(key, kind='read:range' if ':' in read else 'read:cell',
-                      sample=dict(formula_cell=dep, formula=forms.get(dep), read=read))
-            if dep is None or read in ERROR_CODES:
-                continue
-            dcell = comp.cell_map[dep]
-            needed = [p.address for p in dcell.needed_addresses]
-            case = dict(call='read', args=[forms.get(dep, dep), read], needed=needed)
-            if read in needed:
-                continue
-            rc = cells_of(AddressRange, read)
-            cover = [p for p in needed if set(rc) <= set(cells_of(AddressRange, p))]
-            if not cover:
-                ctx.violation(case, "evaluation read an address that is neither a declared precedent nor inside one",
-                              impl=read, expected=needed)
-                continue
-            ctx.histogram['read:computed-inside-declared'] = ctx.histogram.get('read:computed-inside-declared', 0) + 1
-            for m in rc:
-                okpath = any(m in comp.cell_map and p in comp.cell_map and
-                             (m == p or comp.dep_graph.has_edge(comp.cell_map[m], comp.cell_map[p])) and
-                             comp.dep_graph.has_edge(comp.cell_map[p], dcell) for p in cover)
-                if not okpath:
-                    ctx.violation(case, f"cell {m} of a computed read has no path member -> declared range -> dependant "
-                                        "in dep_graph", impl=read, expected=cover)
-        # ---- 2. edges for declared precedents
-        for a in list(comp.cell_map):
-            c = comp.cell_map[a]
-            try:
-                needed = [p.address for p in c.needed_addresses]
-            except Exception:      # noqa: BLE001
-                continue
-            for p in needed:
-                ctx.count(('edge', wbi, p, a), kind='edge')
-                if p not in comp.cell_map or not comp.dep_graph.has_edge(comp.cell_map[p], c):
-                    ctx.violation(dict(call='edge', args=[forms.get(a, a), p]),
-                                  "declared precedent without precedent -> dependant edge in dep_graph", impl=a, expected=p)
-        # ---- 3. perturbing a non-ancestor never changes a value
-        anc = {}
-        for a in forms:
-            node = comp.cell_map[a]
-            anc[a] = {n.address.address for n in nx.ancestors(comp.dep_graph, node)}
-        # ---- 2b. every cell that the evaluation of a formula cell reads, directly or through the range nodes and
-        #          unbounded-range references it reads, is an ancestor of the formula cell
-        reads = {}
-        for dep, read in trace:
-            if read not in ERROR_CODES:
-                reads.setdefault(dep, set()).add(read)
-        for a in forms:
-            seen, todo = set(), [a]
-            while todo:
-                x = todo.pop()
-                nxt = set(reads.get(x, ()))
-                m = re.fullmatch(r'(.+)!\$?([A-C]):\$?([A-C])', x)
-                if m:
-                    # an unbounded range stands for its part inside the used range, whose value it takes without a
-                    # traced call: at least the cells of the input block (rows 1-3) of its columns are read
-                    nxt |= {f'{m.group(1)}!{c}{row}' for c in COLS[COLS.index(m.group(2)):COLS.index(m.group(3)) + 1]
-                            for row in (1, 2, 3)}
-                for r in nxt:
-                    if r not in seen:
-                        seen.add(r)
-                        todo.append(r)
-            for r in sorted(seen):
-                if ':' in r.split('!')[-1]:
-                    continue        # range nodes are the path, the cells are the claim
-                ctx.count(('reach', wbi, a, r), kind='reach:' + ('blank-cell' if inputs.get(r, 0) is None else 'cell')
-                          + (':unbounded' if unbounded(forms[a]) else ''))
-                if r not in anc[a]:
-                    ctx.violation(dict(call='reach', args=[forms[a], r], workbook=forms, blank=inputs.get(r, 0) is None),
-                                  "a cell read while the formula is evaluated (through the range nodes it reads) is "
-                                  "not an ancestor of the formula cell in dep_graph", impl=sorted(anc[a])[:40], expected=r)
-        for x in rng.sample(sorted(inputs), ctx.n(6, 18)):
-            if x not in comp.cell_map:
-                continue        # never built: nothing declared it
-            old = inputs[x]
-            comp.set_value(x, (old or 0) + 1000.5)
-            for a in forms:
-                if x in anc[a]:
-                    continue
-                ctx.count(('perturb', wbi, x, a), kind='perturb')
-                try:
-                    now = ('ok', comp.evaluate(a))
-                except Exception as exc:       # noqa: BLE001
-                    now = ('raise', type(exc).__name__)
-                if not g.same_value(now, base[a]) and not (now[0] == 'ok' and base[a][0] == 'ok' and
-                                                          repr(now[1]) == repr(base[a][1])):
-                    ctx.violation(dict(call='perturb', args=[forms[a], x], workbook=forms),
-                                  "a cell that is not an ancestor in dep_graph influenced the value",
-                                  impl=now, expected=base[a])
-            comp.set_value(x, old)
-        # cells the workbook never linked can still be probed through a fresh read: an input that was never built
-        # is not in cell_map, so set_value would fail — nothing to do
-        del wcase
+                now = ('raise', type(exc).__name__)
+            if not g.same_value(now, base[a]) and not (now[0] == 'ok' and base[a][0] == 'ok' and
+                                                      repr(now[1]) == repr(base[a][1])):
+                ctx.violation(dict(call='perturb', args=[forms[a], x], workbook=forms),
+                              "a cell that is not an ancestor in dep_graph influenced the value",
+                              impl=now, expected=base[a])
+        comp.set_value(x, old)
+    # cells the workbook never linked can still be probed through a fresh read: an input that was never built
+    # is not in cell_map, so set_value would fail — nothing to do
 
 
 # ------------------------------------------------------------------ graph read traces (model vs implementation)
@@ -403,6 +596,11 @@ def traced_compiler(owb):
         addr = str(addr)
         if stack and stack[-1] != addr:
             trace.append((stack[-1], addr))
+        if ':' not in addr.split('!')[-1]:
+            # a range operation which produced a single cell (=A1:B3 B1:C1): the read, by the current reader, is
+            # recorded above; a cell handed to _evaluate_range is no range node, it has no member reads of its own
+            # (since 03ac76a _evaluate_range passes a blank one on to _evaluate)
+            return orig_r(addr)
         stack.append(addr)
         try:
             return orig_r(addr)
@@ -502,7 +700,11 @@ def run(ctx):
         "ranges, nested intersection operators, ROW/COLUMN/INDEX/IF/SUM arguments) plus the C02 tree stream, rendered "
         "with random parentheses and white space; oracle: PRNG workbooks (2 sheets x 9 inputs, 8-21 formulas over 20 "
         "reference-form templates incl. defined names, multi-colon, union, CSE members, whole-column ranges, chains "
-        "through other formula cells; about one input cell in eight is blank); a case is non-trivial when it is a distinct formula text, (workbook, cell, read) triple, edge or "
+        "through other formula cells; about one input cell in eight is blank; 0-3 cells that read the cell / a range at "
+        "their OWN coordinate on the other sheet, with ROW()/COLUMN() without argument; every third workbook first "
+        "evaluated in a shuffled order) and 150 workbooks with a whole-column / whole-row reference next to the "
+        "explicit range it stands for (A:A <-> A1:A{max_row}, 2:2 <-> A2:{max_column}2; separate cells or one formula, "
+        "either order; random first-evaluation order); a case is non-trivial when it is a distinct formula text, (workbook, cell, read) triple, edge or "
         "(workbook, perturbed input, formula cell) triple; graph traces: PRNG single-sheet DAG workbooks of "
         "harness/wbgen.py (5-11 cells, ranges, nested ranges) x 6-12 evaluate/set_value operations, the set of "
         "(reader, read) pairs of every evaluate compared with Model/ReadTrace.v and checked against the generated "
